@@ -548,6 +548,16 @@ class CParser(RecursiveDescentParser):
 
         return initializer
 
+    def at_braced_string(self):
+        """Test if we are at a single string literal enclosed in braces."""
+        if self.peek != "{":
+            return False
+        tokens = [self.look_ahead(n) for n in (1, 2, 3)]
+        kinds = [token.typ if token else None for token in tokens]
+        return kinds[0] == "STRING" and (
+            kinds[1] == "}" or (kinds[1] == "," and kinds[2] == "}")
+        )
+
     def parse_array_string_initializer(self, typ):
         """Handle the special case where an array is initialized with
         a string.
@@ -1206,7 +1216,14 @@ class CParser(RecursiveDescentParser):
                 to_typ = self.parse_typename()
                 self.consume(")")
                 if self.peek == "{":
-                    init = self.parse_initializer_list(to_typ)
+                    if to_typ.is_char_array and self.at_braced_string():
+                        # A string in braces: (char[]){"abc"}
+                        self.consume("{")
+                        init = self.parse_array_string_initializer(to_typ)
+                        self.has_consumed(",")
+                        self.consume("}")
+                    else:
+                        init = self.parse_initializer_list(to_typ)
                     expr = self.semantics.on_compound_literal(
                         to_typ, init, loc
                     )
